@@ -10,7 +10,7 @@ FIELD_ATTRS = {
 CLASSES = {
     'Packet': dict(module='packet', bases=[], attrs={}),
     'PacketError': dict(module='packet', bases=[], attrs={
-        'was_error_found_in_unpacking_phase': 'dyn', 'fields_stack': 'list',
+        'was_error_found_in_unpacking_phase': 'bool', 'fields_stack': 'list',
         'original_error_message': 'dyn', 'original_traceback': 'str', 'packet': 'dyn'}),
     'Fragments': dict(module='fragments', bases=[], attrs={
         'fragments': 'dict:int:bytes', 'begin_of_fragments': 'list', 'current_offset': 'int', 'fill': 'bytes',
